@@ -55,6 +55,23 @@ Theorem C02_response_base : forall c evs s,
 Proof. exact response_base. Qed.
 Print Assumptions C02_response_base.
 
+(* (4b) storage level, for ANY accepted bytes (also a first-frame batchLength that is 0, too
+       short or overruns the record set): every S3 segment body is the concatenation, in
+       offset order (a chain from the object's key), of record sets accepted by some EAppend
+       of the run, each with ONLY its first 8 bytes replaced by the assigned base offset --
+       same length, bytes 8.. unchanged: nothing dropped, added or shifted. So an overrun
+       cannot corrupt a neighbouring record set's bytes in S3; what a consumer that trusts
+       batchLength then reads stays with the open finding concatenated-batches ((6) below). *)
+Theorem C02_stored_bytes_are_appended_bytes : forall c evs s k bs,
+  run (init c) evs = Some s -> lookup k (s_seg s) = Some bs ->
+  seg_body bs = flat_map b_bytes bs /\ bs <> [] /\ chain k bs (last_off bs + 1) /\
+  Forall (fun b => In b (appended (init c) evs) /\
+                   firstn 8 (b_bytes b) = be64 (b_base b) /\
+                   skipn 8 (b_bytes b) = skipn 8 (b_raw b) /\
+                   length (b_bytes b) = length (b_raw b)) bs.
+Proof. exact stored_bytes_are_appended_bytes. Qed.
+Print Assumptions C02_stored_bytes_are_appended_bytes.
+
 (* (5) across restarts: after a restart the next offset is past every acknowledged one *)
 Theorem C02_restart_resumes : forall c evs s,
   run (init c) evs = Some s -> s_live s = true ->
